@@ -1,6 +1,6 @@
 (** C01 - the result relation (typed equality up to dict insertion order and set
     iteration order) and the guards of the round-trip theorem. *)
-From Coq Require Import List ZArith NArith Bool Arith Lia.
+From Coq Require Import List ZArith NArith Bool Arith Lia Permutation.
 Import ListNotations.
 From DD Require Import Base.PyStr Base.Value Base.ValueFacts Path.PathModel Diff.Tree Diff.DiffModel
   Diff.DiffFacts Diff.DiffFaithful.
@@ -183,4 +183,30 @@ Proof.
       eapply Forall_forall in IH; [|exact Hkv]. apply IH. eapply forallb_forall in W; [|exact Hkv]. exact W.
   - cbn. rewrite Nat.eqb_refl. cbn. apply andb_true_iff. split; apply forallb_forall; intros x Hx; apply has_atom_In; exact Hx.
   - cbn. rewrite Nat.eqb_refl. cbn. apply andb_true_iff. split; apply forallb_forall; intros x Hx; apply has_atom_In; exact Hx.
+Qed.
+
+(* ---- extensional criterion for dicts ---- *)
+Lemma nodup_NoDup' l : nodup_atoms l = true -> NoDup l.
+Proof.
+  induction l as [|x l IH]; cbn; intros N; [constructor|].
+  apply andb_true_iff in N as [Nx N]. apply negb_true_iff in Nx. constructor; [|apply IH; exact N].
+  intros H. assert (mem_atom x l = true) by (apply mem_atom_In; exists x; split; [exact H|apply py_eq_refl]). congruence.
+Qed.
+
+Lemma veqb_dict_ext kvs kvs2 :
+  nodup_atoms (map fst kvs) = true -> nodup_atoms (map fst kvs2) = true ->
+  (forall k, In k (map fst kvs) -> In k (map fst kvs2)) ->
+  (forall k, In k (map fst kvs2) -> In k (map fst kvs)) ->
+  (forall k v v2, In (k, v) kvs -> In (k, v2) kvs2 -> veqb v v2 = true) ->
+  veqb (VDict kvs) (VDict kvs2) = true.
+Proof.
+  intros N N2 S1 S2 HV. rewrite veqb_dict. apply andb_true_iff. split; [apply andb_true_iff; split|].
+  - apply Nat.eqb_eq. rewrite <- (map_length fst kvs), <- (map_length fst kvs2).
+    apply Permutation_length. apply NoDup_Permutation; try (apply nodup_NoDup'; assumption).
+    intros k. split; [apply S1|apply S2].
+  - apply forallb_forall. intros k Hk. apply has_atom_In. apply S2. exact Hk.
+  - apply dict_veq_intro. intros k v Hkv.
+    assert (Hk : In k (map fst kvs)) by (apply in_map_iff; exists (k, v); split; [reflexivity|exact Hkv]).
+    apply S1 in Hk. apply in_map_iff in Hk as ([k0 v2] & E0 & H2). cbn in E0. subst k0.
+    exists v2. split; [apply lookup_nodup; assumption|]. eapply HV; eassumption.
 Qed.
